@@ -198,6 +198,24 @@ def check_bin(case):
                 return
     arith("+", lambda a, b: a + b, sumA, sumB)
     arith("-", lambda a, b: a - b, difA, difB)
+    # the reflected operators: the LEFT operand is a string (a - b with a given as text, b as Length)
+    if comm:
+        for name, fn, wa, wb in (("r-", lambda: sa - svg.Length(sb), difA, difB), ("r+", lambda: sa + svg.Length(sb), sumA, sumB)):
+            what = "%r %s Length(%r)" % (sa, name[1], sb)
+            try:
+                r = fn()
+                for ctx, want in ((CTXA, wa), (CTXB, wb)):
+                    v = resolve(r, ctx)
+                    if is_num(v) and not near(v, rat(want)):
+                        dis.append({"clause": name[1] + ":Value", "reflected": True, "rel_err": relerr(v, rat(want)),
+                                    "detail": "%s = %r resolves to %r (ppi %s), expected %s = %r" % (what, r, v, rat(ctx[0]), rat(want), float(rat(want)))})
+                        break
+            except (ValueError, TypeError):
+                pass        # a string on the left need not be supported for every unit pair; a wrong VALUE is what counts
+            except engine.CaseTimeout:
+                raise
+            except Exception as e:
+                dis.append({"clause": name + ":Raises", "detail": "%s raised %s" % (what, type(e).__name__)})
 
     def iadd(a, b):
         a += b
